@@ -23,6 +23,19 @@ def generate(ck, prop, tier, seed, map_entries=2):
         g1 = vlib.must_hold(vlib.tlc("ThriftWire", "Gen_ThriftWire.cfg", workers=8, sink=sink, defines=one), "generation (1 field)")
         ck.add_mc(g1, "Gen_ThriftWire(1 field, all types, all ids)")
         ck.notes["first_part"] = g1.vectors
+        # an enum-tagged field next to plain fields of the same integer kind (both orders, every option): what one field's tag
+        # says must not reach the other uses of its Go type (codecs are cached by Go type while a struct's codec is built);
+        # these belong to the part that is never sampled away
+        widths = ["I8", "I16", "I32", "I64"]
+        if not thorough:
+            widths = [widths[seed % 4], widths[(seed + 1) % 4]]
+        for w in widths:
+            twin = {"MaxMapEntries": map_entries, "MaxFields": 2, "GenTypes": tla_set([w, "ENUM"]), "FieldIds": "{1, 16, 70}", "MaxId": 1}
+            gt = vlib.must_hold(vlib.tlc("ThriftWire", "Gen_ThriftWire.cfg", workers=8, sink=sink, defines=twin, tag="ThriftWire-twin-" + w, timeout=3000),
+                                "generation (an enum field and plain fields of kind %s)" % w)
+            ck.add_mc(gt, "Gen_ThriftWire(2 fields, types %s and ENUM)" % w)
+            ck.notes["first_part"] += gt.vectors
+            ck.notes["enum_twin_vectors"] = ck.notes.get("enum_twin_vectors", 0) + gt.vectors
         for round_ in range(6 if thorough else 1):
             rnd = random.Random(seed + 1000 * round_)
             types = sorted(rnd.sample(ALL_TYPES, 3))   # (4 types with two-entry maps: over 2 GiB of vectors - measured)
